@@ -29,6 +29,7 @@ structure State where
   claimed : List Nat := []  -- entry objects holding the prefetch claim
   pfq : List PfItem := []   -- queued refreshes, oldest first
   zoneOf : List (Nat × Nat) := []  -- question ↦ k for names below the denied name d.z<k>
+  l3n : Nat := 0            -- answers the scripted leaf authority has given (l3 ops)
 
 /-! ### parsing -/
 
@@ -440,6 +441,32 @@ def step (st : State) (w : List String) : State × String :=
         let cuts := if admitsDenial child rcd || admitsDenial f.view rcd then addCut st.cuts k else st.cuts
         ({ st with cuts := cuts }, s!"tgt=t cuts={cuts.length}")
     | _, _, _, _, _ => (st, "bad-op")
+  | ["l3", "new", en, f4, f6, m4, m6, nets, cap] =>
+    -- the real pipeline edns → cache → iterative resolver; default cache knobs, no prefetch
+    match buildFrom en f4 f6 m4 m6 nets, cap.toNat? with
+    | some r, some cap => ({ pol := st.pol, ppol := r.policy, cap := cap }, "ok")
+    | _, _ => (st, "bad-op")
+  | ["l3", "q", c, copts, decl] =>
+    match clientOpts "udp" copts, parseClient c true with
+    | some (some copts?), some client =>
+      let f := front st client false copts?
+      -- the leaf authority: "S<bits>" echoes the subnet option it was sent with that SCOPE,
+      -- "E…" attaches a fixed option, "-" none; the resolver hands up the request's OPT with
+      -- the authority's option in place of the forwarded one
+      let auth : Option (List Opt) :=
+        if decl.startsWith "S" then
+          match firstEcs f.fwd, (decl.drop 1).toNat? with
+          | some s, some b => some [.ecs { s with scope := b }]
+          | _, _ => some []
+        else if decl == "-" then some []
+        else (parseOpt decl).map (fun o => [o])
+      match auth with
+      | none => (st, "bad-op")
+      | some _ =>
+        let up := resolverHandUp (some f.fwd) auth
+        let (st', out) := qCore st "udp" client 0 false copts? 300 up (st.l3n + 1) .success none
+        ((if out.startsWith "up=hit" then st' else { st' with l3n := st.l3n + 1 }), out)
+    | _, _ => (st, "bad-op")
   | "l3" :: _ => (st, "unmodelled")
   | _ => (st, "bad-op")
 
